@@ -29,6 +29,11 @@ SPECS = {
     "std::option::Option::<T>::map_or_else": (OPTION, {"Some": ("call", 2), "None": ("call0", 1)}, None),
     "std::option::Option::<T>::unwrap_or_else": (OPTION, {"Some": ("payload",), "None": ("call0", 1)}, None),
     "std::option::Option::<T>::ok_or_else": (OPTION, {"Some": ("keepas", "Ok"), "None": ("wrap0", "Err", 1)}, RESULT),
+    "std::option::Option::<T>::ok_or": (OPTION, {"Some": ("keepas", "Ok"), "None": ("wraparg", "Err", 1)}, RESULT),
+    "std::option::Option::<T>::unwrap_or": (OPTION, {"Some": ("payload",), "None": ("arg", 1)}, None),
+    "std::option::Option::<T>::or": (OPTION, {"Some": ("keep", "Some"), "None": ("arg", 1)}, OPTION),
+    "std::result::Result::<T, E>::ok": (RESULT, {"Ok": ("keepas", "Some"), "Err": ("unit", "None")}, OPTION),
+    "std::result::Result::<T, E>::unwrap_or": (RESULT, {"Ok": ("payload",), "Err": ("arg", 1)}, None),
     "std::option::Option::<T>::or_else": (OPTION, {"Some": ("keep", "Some"), "None": ("call0", 1)}, OPTION),
     "std::option::Option::<T>::filter": (OPTION, {"Some": ("filter", 1), "None": ("keep", "None")}, OPTION),
     "std::result::Result::<T, E>::map": (RESULT, {"Ok": ("wrap", "Ok", 1), "Err": ("keep", "Err")}, RESULT),
@@ -386,6 +391,10 @@ def _rewrite(body, bi, t, spec, by_path):
             Bd.assign(cur, P(dl, dty), agg(enum, V, [mv(pay)] if has_payload else []))
         elif kind == "keepas":
             Bd.assign(cur, P(dl, dty), agg(result_enum, act[1], [mv(pay)]))
+        elif kind == "wraparg":
+            Bd.assign(cur, P(dl, dty), agg(result_enum, act[1], [args[act[2]]]))
+        elif kind == "unit":
+            Bd.assign(cur, P(dl, dty), agg(result_enum, act[1], []))
         elif kind == "payload":
             Bd.assign(cur, P(dl, dty), {"rv": "use", "op": mv(pay)})
         elif kind == "arg":
